@@ -33,6 +33,8 @@ class Parser(Emitter):
             if self.debug:
                 traceback.print_exc()
             error = str(formulaserror.from_message(e))
+        finally:
+            formulaserror.forget_tracebacks()
 
         if isinstance(result, formulaserror.XLError):
             # report the canonical code (a host may hand in an XLError of its own making)
